@@ -135,6 +135,15 @@ class P:
                         cl.append(c_)
                         cexp[c_] = (shape[:k].count("\n") + 1, k - (shape[:k].rfind("\n") + 1) + 1)
 
+        # an offending newline on an empty line directly after a line continuation (the column of the line before must not leak)
+        for shape in ("case x in a\\\n@\n) b ;; esac\n", "case x in abcdefgh\\\n@\n) b ;; esac\n", "case x in a|\\\n@\nb) c ;; esac\n",
+                      "case xyz in (\\\n@\na) b ;; esac\n", "case x in a) b ;; cdefg\\\n@\n) d ;; esac\n", "{ case x in a\\\n@\n) b ;; esac; }\n",
+                      "case x in a\\\n\\\n@\n) b ;; esac\n", "echo $(case x in abc\\\n@\n) b ;; esac)\n"):
+            k = shape.index("@")
+            c_ = G.pcase(shape.replace("@", ""))
+            cl.append(c_)
+            cexp[c_] = (shape[:k].count("\n") + 1, k - (shape[:k].rfind("\n") + 1) + 1)
+
         def cl_ok(c, o):
             if not (o.startswith("ok ") and fields(o)["E"].startswith("syn:")):
                 return False
